@@ -5,6 +5,7 @@ import (
 	"math"
 	"math/big"
 	"sort"
+	"strconv"
 	"strings"
 
 	"verif/harness/core"
@@ -416,7 +417,19 @@ func c17lookups(c *core.Ctx, rng *core.Rng) {
 		s := core.Pick(rng, []string{"a", "b", "ab", "abc", "B", "z", "aa", "a0", "0", "10", "9"}) + fmt.Sprint(rng.Intn(3))
 		return s, s
 	}})
+	// decimal64 keys that differ only in their last fraction digits, and far apart
+	kts = append(kts, keyType{"d8", func() (interface{}, string) {
+		s := core.Pick(rng, []string{"1.00000001", "1.00000002", "1.00000003", "0.99999999", "1", "1.5", "-1.00000001", "-1.00000002", "0.00000001", "0", "9007199.25474099", "9007199.25474098"})
+		f, _ := strconv.ParseFloat(s, 64)
+		return f, s
+	}})
+	kts = append(kts, keyType{"d2", func() (interface{}, string) {
+		s := core.Pick(rng, []string{"1.01", "1.02", "1.1", "1", "-0.01", "0.01", "0", "100.25", "100.26"})
+		f, _ := strconv.ParseFloat(s, 64)
+		return f, s
+	}})
 	var body strings.Builder
+	body.WriteString("typedef d8 { type decimal64 { fraction-digits 8; } } typedef d2 { type decimal64 { fraction-digits 2; } }\n")
 	for i, kt := range kts {
 		fmt.Fprintf(&body, "list l%d { key k; leaf k { type %s; } leaf d { type string; } }\n", i, kt.yang)
 	}
@@ -483,13 +496,13 @@ func c17lookups(c *core.Ctx, rng *core.Rng) {
 						Summary: fmt.Sprintf("%s list keyed by %s with keys %v: Find(%s=%s) gave %s, want %s", backend, kt.yang, urls, listName, u, got, want),
 						Input:   map[string]interface{}{"backend": backend, "keytype": kt.yang, "keys": urls, "lookup": u}, Impl: got, Spec: want})
 				}
-				if backend == "reflect-slice" && kt.yang != "string" {
-					recv := ""
-					for _, f := range numFmts {
-						if f.yang == kt.yang {
-							recv = f.recv
-						}
+				recv := ""
+				for _, f := range numFmts {
+					if f.yang == kt.yang {
+						recv = f.recv
 					}
+				}
+				if backend == "reflect-slice" && recv != "" {
 					lines = append(lines, fmt.Sprintf("c17 find %s %s %s", recv, u, strings.Join(urls, " ")))
 					pends = append(pends, pend{fmt.Sprintf("%s keys=%v lookup=%s", recv, urls, u), strings.TrimPrefix(got, "d")})
 				}
